@@ -1,5 +1,6 @@
 """Helpers shared by c12.py and c07.py: the typed-response family (HttpCodedResponse impls, their
 evaluated STATUS_CODE, the `From<X> for HttpHandlerResult` conversions) and small CFG utilities."""
+import json
 import re
 
 from .lib import PLUMBING, callee_allow, operand_local
@@ -423,3 +424,374 @@ def field_sources(fn, local, field, adt_pattern=None, _seen=None):
     if whole_opaque and not wrote_field and not ops:
         complete = False
     return ops, complete
+
+
+# ----------------------------------------------------------------------------- Result data flow / outcome of a check
+# (generic, meant for the normalised view `ctx.dsn`; candidates for lib.py)
+FROM_RESIDUAL = r"ops::FromResidual::from_residual$"
+SUCC_VARIANTS = ("Ok", "Continue", "Some")
+FAIL_VARIANTS = ("Err", "Break", "None")
+
+
+def payload_place(local, variant):
+    """The place `(local as Ok).0` / `(local as Err).0` of a Result held in `local`."""
+    return {"l": local, "p": [{"dc": variant, "v": {"Ok": 0, "Err": 1}[variant]}, {"f": 0, "n": "0"}]}
+
+
+def field_place(fn, pl, adt, name):
+    """The place `pl.<name>` for a struct `adt` (field index taken from the ADT table), or None."""
+    a = fn.facts.adts.get(adt)
+    if not a:
+        return None
+    for i, fld in enumerate(a["variants"][0]["fields"]):
+        if fld["name"] == name:
+            return {"l": pl["l"], "p": list(pl["p"]) + [{"f": i, "n": name}]}
+    return None
+
+
+def result_payload_sources(fn, local, variant, transparent=()):
+    """Every value the Ok / Err payload of the Result in `local` (0 = the return value) may hold, as lib_c01 Paths: through
+    `return`s of inlined helpers, match arms, let-bindings and — for the error — the residual of `?`.  However the function is
+    spelled (`x?; Ok(y)`, `match x {..}`, `x.map(..)`, a helper), the set of (payload source) is the same.  Definitions in
+    unreachable blocks are ignored; a `?` residual is never the success case."""
+    from .lib_c01 import sources
+    tr = list(transparent) + ([FROM_RESIDUAL] if variant == "Err" else [])
+    reach = fn.reachable(0)
+    out = []
+    for p in sources(fn, payload_place(local, variant), transparent=tr):
+        if variant == "Ok" and p.is_call(FROM_RESIDUAL):
+            continue
+        if any(b not in reach for _, b in p.hops) or (p.kind() == "call" and p.root[3] not in reach):
+            continue
+        out.append(p)
+    return out
+
+
+def def_site(fn, local, rv):
+    """Block of the assignment whose rvalue is the object `rv` (roots of kind "agg" carry the rvalue, not its site)."""
+    for bb, kind, node in fn.defs().get(local, []):
+        if kind == "assign" and node["rv"] is rv:
+            return bb
+    return None
+
+
+class CheckOutcome:
+    """What is known, per CFG position, about the Result returned by one of the calls in blocks `check_bbs` (e.g. a validation):
+    `passed(bb)`: every path to bb has seen it return Ok; `failed(bb)`: .. Err.  The knowledge comes from edges of switches on the
+    discriminant of that Result or of a value that is Ok / Continue only where the check is already known to have passed (the
+    ControlFlow of `?`, a `match` result re-wrapped by a helper, a let-bound copy) — computed as a fixed point, so neither the number
+    nor the position of the matches matters — and from `is_ok()` / `is_err()` tests on it (path-sensitive bool facts)."""
+
+    def __init__(self, fn, check_bbs):
+        from .lib_c01 import access_path
+        self.fn = fn
+        self.checks = set(check_bbs)
+        self.ok, self.err = set(), set()
+        reach = fn.reachable(0)
+        defs = fn.defs()
+
+        def root_local(pl):
+            p = access_path(fn, pl)
+            if p.path or p.kind() not in ("local", "call", "agg"):
+                return None
+            return p.root[1]
+
+        def implies(l, want_ok, depth=0):
+            if depth > 8:
+                return False
+            ds = [d for d in defs.get(l, []) if d[0] in reach]
+            if not ds:
+                return False
+            for bb, kind, node in ds:
+                if kind == "call":
+                    if node["dest"]["p"]:
+                        return False
+                    if bb in self.checks:
+                        continue
+                    c = node.get("callee") or ""
+                    a0 = node["args"][0] if node["args"] else None
+                    if re.search(r"ops::Try::branch$", c) and a0 is not None and a0.get("k") in ("copy", "move"):
+                        r = root_local(a0["pl"])
+                        if r is None or not implies(r, want_ok, depth + 1):
+                            return False
+                        continue
+                    if re.search(FROM_RESIDUAL, c):
+                        if not want_ok and not self._dominated(self.err, bb):
+                            return False
+                        continue
+                    return False
+                if kind != "assign" or node["pl"]["p"]:
+                    return False
+                rv = node["rv"]
+                if rv["rv"] == "use" and rv["op"].get("k") in ("copy", "move") and not rv["op"]["pl"]["p"]:
+                    if not implies(rv["op"]["pl"]["l"], want_ok, depth + 1):
+                        return False
+                    continue
+                if rv["rv"] == "agg" and rv.get("agg") == "adt" and rv.get("variant") in SUCC_VARIANTS + FAIL_VARIANTS:
+                    if (rv["variant"] in SUCC_VARIANTS) != want_ok:
+                        continue        # built as the other case
+                    if not self._dominated(self.ok if want_ok else self.err, bb):
+                        return False
+                    continue
+                return False
+            return True
+
+        changed = True
+        while changed:
+            changed = False
+            for sbb, t in fn.switches():
+                if sbb not in reach:
+                    continue
+                info = fn.switch_on(sbb)
+                if info["kind"] != "discr":
+                    continue
+                x = root_local(info["place"])
+                if x is None:
+                    continue
+                tg = {}
+                for v, n in info["variants"].items():
+                    side = "ok" if n in SUCC_VARIANTS else "err" if n in FAIL_VARIANTS else None
+                    if side:
+                        tg.setdefault(side, set()).add(fn.switch_target(sbb, v))
+                if len(tg.get("ok", ())) != 1 or len(tg.get("err", ())) != 1 or tg["ok"] == tg["err"]:
+                    continue
+                for side, known in (("ok", self.ok), ("err", self.err)):
+                    e = (sbb, next(iter(tg[side])))
+                    if e not in known and implies(x, side == "ok"):
+                        known.add(e)
+                        changed = True
+        # boolean tests of the check's result
+        self.ok_atoms, self.err_atoms = [], []
+        for bb, t in fn.live_calls(r"result::Result::<T, E>::(is_ok|is_err)$"):
+            a0 = t["args"][0]
+            if a0.get("k") not in ("copy", "move"):
+                continue
+            p = access_path(fn, a0["pl"])
+            if p.kind() == "call" and not p.path and p.root[3] in self.checks:
+                (self.ok_atoms if t["callee"].endswith("is_ok") else self.err_atoms).append(("call", bb))
+
+    def _dominated(self, edges, bb):
+        return any(self.fn.edge_dominates(s, t, bb) for s, t in edges)
+
+    def passed(self, bb):
+        if self._dominated(self.ok, bb):
+            return True
+        return bool(self.ok_atoms or self.err_atoms) and self.fn.guarded_by(bb, atoms_true=self.ok_atoms, atoms_false=self.err_atoms)[0]
+
+    def failed(self, bb):
+        if self._dominated(self.err, bb):
+            return True
+        return bool(self.ok_atoms or self.err_atoms) and self.fn.guarded_by(bb, atoms_true=self.err_atoms, atoms_false=self.ok_atoms)[0]
+
+    def failure_reaches(self, bb):
+        """Can control get from a position where the check is known to have failed to bb?"""
+        return any(bb == t or bb in self.fn.reachable(t) for s, t in self.err)
+
+
+# ----------------------------------------------------------------------------- value tracing through conversions, iterator pipelines and closures
+# (generic, meant for the normalised view; candidate for lib.py)
+ELEM = {"elem": True}       # pseudo-projection: "an element of" the collection / iterator the place holds
+TRACE_PLUMBING = [r"clone::Clone::clone$", r"ops::Deref::deref$", r"ops::DerefMut::deref_mut$", r"convert::AsRef::as_ref$", r"convert::AsMut::as_mut$",
+                  r"borrow::Borrow::borrow$", r"borrow::BorrowMut::borrow_mut$", r"ops::Try::branch$", r"hint::must_use$"]
+# calls that hand on the elements of their receiver unchanged (the closure of filter / inspect / .. only selects or observes)
+ITER_SAME_ELEMENTS = [r"iter::IntoIterator::into_iter$", r"iter::Iterator::(by_ref|peekable|fuse|skip|take|filter|inspect|skip_while|take_while|step_by)$",
+                      r"::iter$", r"::iter_mut$", r"::into_iter$", r"::drain$", r"Vec::<T, A>::as_slice$", r"Vec::<T, A>::as_mut_slice$"]
+# adaptors that call their closure with one element of the receiver as its only argument
+ELEMENT_ADAPTORS = r"iter::Iterator::(map|for_each|try_for_each|filter|filter_map|find|find_map|any|all|position|inspect|flat_map|skip_while|take_while|map_while|partition|max_by_key|min_by_key)$"
+
+
+def _pstr(e):
+    if e == ELEM or (isinstance(e, dict) and e.get("elem")):
+        return "[elem]"
+    if isinstance(e, dict) and "f" in e:
+        return str(e.get("n") if e.get("n") not in (None, "") else e["f"])
+    if isinstance(e, dict) and "dc" in e:
+        n = e["dc"] if e["dc"] is not None else e.get("v")
+        return "+" if n in SUCC_VARIANTS else "-" if n in FAIL_VARIANTS else "as %s" % n
+    if isinstance(e, dict) and "idx" in e:
+        return "[i]"
+    return "[?]"
+
+
+class Term:
+    """Where a traced value finally comes from: kind 'param' (of a non-closure function, or an unresolved closure parameter), 'call'
+    (result of a call the trace does not look through), 'const', 'agg' (a whole aggregate built in the function), 'local' (computed:
+    operators, partial writes, ..) or 'budget'.  `path` is what is read from that root ("+" = Ok/Some/Continue payload, "-" = the
+    failure payload, "[elem]" = an element of it, field names / tuple indices); `trail` lists the conversions and adaptors passed."""
+
+    def __init__(self, fn, kind, local, proj, node, bb, trail):
+        self.fn, self.kind, self.local, self.proj, self.node, self.bb, self.trail = fn, kind, local, proj, node, bb, list(trail)
+        self.path = [_pstr(e) for e in proj]
+
+    @property
+    def callee(self):
+        return (self.node.get("callee") or "<indirect>") if self.kind == "call" else None
+
+    def is_call(self, pattern):
+        return self.kind == "call" and (re.search(pattern, self.callee) is not None or bool(self.node.get("resolved") and re.search(pattern, self.node["resolved"])))
+
+    def conversions(self):
+        return [c for c, how in self.trail if how == "convert"]
+
+    def __repr__(self):
+        head = {"param": "param#%s" % self.local, "call": "%s(..)" % (self.callee or "").split("::")[-1], "const": "const", "agg": "aggregate",
+                "local": "computed local#%s" % self.local, "budget": "<budget>"}[self.kind]
+        s = head + "".join("." + p for p in self.path)
+        conv = [c.split("::")[-1] for c in self.conversions()]
+        return s + (" via " + ",".join(conv) if conv else "")
+
+
+def _adaptor_takers(facts, clo):
+    """[(parent Fn, bb, call term)] of the calls that are handed the closure `clo` (in its lexical parent or, for a closure of an
+    inlined helper, in the function the helper was inlined into)."""
+    from .lib import closure_args_of_call
+    pid = clo.raw.get("parent")
+    pars = [facts.F[pid]] if pid in facts.F else []
+    pars += [g for g in facts.F.values() if pid in g.raw.get("inlined", []) and g not in pars]
+    out = []
+    for par in pars:
+        for bb, t in par.live_calls():
+            if any(h is clo for h, node in closure_args_of_call(par, t)):
+                out.append((par, bb, t))
+    return out
+
+
+def trace_value(facts, fn, x, convert=(), plumbing=(), limit=600):
+    """Backward, variant- and field-sensitive trace of an operand / place to the values it can hold: [Term].
+
+    Unlike a slice it follows only the *value*: through copies, borrows, let-bindings, multi-definition locals (each definition;
+    a definition that builds another enum variant than the one read is skipped, so the Ok payload of `x?` never reaches the error
+    constructors of `x`), projections of aggregates built in the function, the residual of `?`, value-preserving calls (`plumbing`
+    + TRACE_PLUMBING), *conversions* (`convert`: the result — or its Ok/Some payload — is a function of the first argument as a whole;
+    recorded in Term.trail), closure captures (into the function that builds the closure), and iterator pipelines: the item of
+    `Iterator::next`, the item parameter of an adaptor closure, `.map(closure)` stages (into the closure's return value),
+    `.collect()` into a collection or a `Result<collection, _>`, `into_iter()` and friends — an element is written as the
+    pseudo-projection [elem], so `for (k, v) in m`, `m.into_iter().for_each(|(k, v)| ..)` and
+    `m.into_iter().map(|(k, v)| ..).collect::<Result<Vec<_>, _>>()?.into_iter()..` all end in `m.[elem].0` / `m.[elem].1`."""
+    from .lib import closure_args_of_call
+    from .lib_c01 import captured_operand
+    rx_conv = [re.compile(p) for p in convert]
+    rx_pl = [re.compile(p) for p in list(plumbing) + TRACE_PLUMBING]
+    rx_same = [re.compile(p) for p in ITER_SAME_ELEMENTS]
+
+    def m(rxs, t):
+        c, r = t.get("callee") or "", t.get("resolved") or ""
+        return any(rx.search(c) or (r and rx.search(r)) for rx in rxs)
+
+    def strip(p):
+        return [e for e in p if e != "*"]
+
+    def is_dc(e, cls=None):
+        return isinstance(e, dict) and "dc" in e and (cls is None or e["dc"] in cls)
+
+    def is_f(e):
+        return isinstance(e, dict) and "f" in e
+
+    def is_elem(e):
+        return isinstance(e, dict) and e.get("elem")
+
+    if "k" in x:
+        if x["k"] == "const":
+            return [Term(fn, "const", None, [], x, None, [])]
+        pl = x["pl"]
+    else:
+        pl = x
+    out, seen, n = [], set(), 0
+    work = [(fn, pl["l"], strip(pl["p"]), ())]
+
+    def push_op(g, op, rest, trail, l):
+        if op.get("k") in ("copy", "move"):
+            work.append((g, op["pl"]["l"], strip(op["pl"]["p"]) + rest, trail))
+        else:
+            out.append(Term(g, "const", l, rest, op, None, trail))
+
+    while work:
+        g, l, proj, trail = work.pop()
+        key = (g.id, l, json.dumps(proj, sort_keys=True))
+        if key in seen:
+            continue
+        seen.add(key)
+        n += 1
+        if n > limit:
+            out.append(Term(g, "budget", l, proj, None, None, trail))
+            continue
+        if 1 <= l <= g.argc:
+            if g.raw.get("kind") == "Closure":
+                if l == 1 and proj and is_f(proj[0]):
+                    cap = captured_operand(facts, g, proj[0]["f"])
+                    if cap is not None:
+                        push_op(cap[0], cap[1], proj[1:], trail, l)
+                        continue
+                elif l == 2 and g.argc == 2:
+                    takers = [(par, bb, t) for par, bb, t in _adaptor_takers(facts, g) if re.search(ELEMENT_ADAPTORS, t.get("callee") or "") and t["args"]]
+                    if takers:
+                        for par, bb, t in takers:
+                            push_op(par, t["args"][0], [ELEM] + proj, trail + ((t["callee"], "adaptor"),), l)
+                        continue
+            out.append(Term(g, "param", l, proj, None, None, trail))
+            continue
+        reach = g.reachable(0)
+        ds = [d for d in g.defs().get(l, []) if d[0] in reach]
+        if not ds or not all((k == "assign" and not nd["pl"]["p"]) or (k == "call" and not nd["dest"]["p"]) for _, k, nd in ds):
+            out.append(Term(g, "local", l, proj, None, None, trail))
+            continue
+        for bb, kind, node in ds:
+            if kind == "assign":
+                rv = node["rv"]
+                k = rv["rv"]
+                if k in ("use", "cast"):
+                    if k == "cast" and rv["op"].get("k") in ("copy", "move") and not any(w in rv.get("kind", "") for w in ("Unsize", "Transmute", "PtrToPtr")):
+                        out.append(Term(g, "local", l, proj, rv, bb, trail))
+                    else:
+                        push_op(g, rv["op"], proj, trail, l)
+                elif k in ("ref", "copyderef", "rawptr"):
+                    work.append((g, rv["pl"]["l"], strip(rv["pl"]["p"]) + proj, trail))
+                elif k == "agg" and rv.get("agg") in ("tuple", "adt", "closure", "coroutine"):
+                    is_struct = rv.get("agg") != "adt" or g.facts.adts.get(rv.get("adt"), {}).get("kind") == "struct"
+                    if is_struct and proj and is_f(proj[0]) and proj[0]["f"] < len(rv["ops"]):
+                        push_op(g, rv["ops"][proj[0]["f"]], proj[1:], trail, l)
+                    elif not is_struct and proj and is_dc(proj[0]):
+                        want, have = proj[0]["dc"], rv.get("variant")
+                        same = want == have or (want in SUCC_VARIANTS and have in SUCC_VARIANTS) or (want in FAIL_VARIANTS and have in FAIL_VARIANTS)
+                        if not same:
+                            continue        # a value built as one variant is never read as another
+                        if len(proj) > 1 and is_f(proj[1]) and proj[1]["f"] < len(rv["ops"]):
+                            push_op(g, rv["ops"][proj[1]["f"]], proj[2:], trail, l)
+                        else:
+                            out.append(Term(g, "agg", l, proj, rv, bb, trail))
+                    else:
+                        out.append(Term(g, "agg", l, proj, rv, bb, trail))
+                else:
+                    out.append(Term(g, "local", l, proj, rv, bb, trail))
+                continue
+            if kind != "call":
+                out.append(Term(g, "local", l, proj, None, bb, trail))
+                continue
+            t = node
+            c = t.get("callee") or ""
+            a0 = t["args"][0] if t["args"] else None
+            if re.search(FROM_RESIDUAL, c) and a0 is not None:
+                if proj and is_dc(proj[0], SUCC_VARIANTS):
+                    continue                # the residual of `?` is never the success case
+                push_op(g, a0, proj, trail, l)
+            elif a0 is not None and (m(rx_pl, t) or m(rx_same, t)):
+                push_op(g, a0, proj, trail, l)
+            elif re.search(r"iter::Iterator::next$|iter::DoubleEndedIterator::next_back$", c) and a0 is not None and len(proj) >= 2 and is_dc(proj[0], ("Some",)) and is_f(proj[1]):
+                push_op(g, a0, [ELEM] + proj[2:], trail + ((c, "adaptor"),), l)
+            elif re.search(r"iter::Iterator::collect$", c) and a0 is not None and proj and is_elem(proj[0]):
+                push_op(g, a0, proj, trail + ((c, "adaptor"),), l)
+            elif re.search(r"iter::Iterator::collect$", c) and a0 is not None and len(proj) >= 3 and is_dc(proj[0], SUCC_VARIANTS) and is_f(proj[1]) and is_elem(proj[2]):
+                # collect::<Result<C, E>>() / ::<Option<C>>(): an element of the Ok collection is the Ok payload of an item
+                push_op(g, a0, [ELEM, proj[0], proj[1]] + proj[3:], trail + ((c, "adaptor"),), l)
+            elif re.search(r"iter::Iterator::(map|filter_map|map_while)$", c) and a0 is not None and proj and is_elem(proj[0]):
+                stages = [h for h, nd in closure_args_of_call(g, t)]
+                if not stages:
+                    out.append(Term(g, "call", l, proj, t, bb, trail))
+                extra = [] if c.endswith("::map") else [{"dc": "Some", "v": 1}, {"f": 0, "n": "0"}]
+                for h in stages:
+                    work.append((h, 0, extra + proj[1:], trail + ((c, "adaptor"),)))
+            elif a0 is not None and m(rx_conv, t) and (not proj or (len(proj) == 2 and is_dc(proj[0], SUCC_VARIANTS) and is_f(proj[1]))):
+                push_op(g, a0, [], trail + ((c, "convert"),), l)
+            else:
+                out.append(Term(g, "call", l, proj, t, bb, trail))
+    return out
